@@ -85,6 +85,11 @@ package plugin
 //@ func (*CLIManager).List$1
 //@ props C16
 //@ requires err != nil || d != nil
+// completeness of the listing: the walk is cut short (SkipDir) only below a real sub-directory, never at the root, at a
+// file or at a symlink — returning SkipDir for a non-directory would make WalkDir skip the rest of the plugin root
+//@ ensures[C16.list-complete] err == nil && (dir == "." || !modeIsDir(deType(d)) || bitand(deType(d), fs.ModeSymlink) != 0) ==> result == nil
+//@ ensures[C16.list-complete] err == nil && dir != "." && modeIsDir(deType(d)) && bitand(deType(d), fs.ModeSymlink) == 0 ==> result == fs.SkipDir
+//@ ensures[C16.list-complete] err != nil && errIs(err, os.ErrNotExist) ==> result == nil
 
 // ---- C20: installation follows the version rules and decides before it mutates ----
 
